@@ -148,7 +148,7 @@ def _on_alarm(signum, frame):
     raise CaseTimeout()
 
 
-CASE_TIMEOUT_S = 5.0
+CASE_TIMEOUT_S = 8.0  # CPU seconds of this process (ITIMER_VIRTUAL): independent of machine load; a case needs ~3 ms
 
 
 def impl_run(case):
@@ -156,15 +156,15 @@ def impl_run(case):
     implementation that loops, e.g. iterating a dict it is appending to) is an observation"""
     import signal
 
-    old = signal.signal(signal.SIGALRM, _on_alarm)
-    signal.setitimer(signal.ITIMER_REAL, CASE_TIMEOUT_S)
+    old = signal.signal(signal.SIGVTALRM, _on_alarm)
+    signal.setitimer(signal.ITIMER_VIRTUAL, CASE_TIMEOUT_S, 1.0)  # periodic: a firing swallowed inside a __del__ is repeated
     try:
         return impl_run_inner(case)
     except CaseTimeout:
-        return [("exc", f"timeout: the steps did not finish within {CASE_TIMEOUT_S}s")]
+        return [("exc", f"timeout: the steps did not finish within {CASE_TIMEOUT_S} CPU seconds")]
     finally:
-        signal.setitimer(signal.ITIMER_REAL, 0)
-        signal.signal(signal.SIGALRM, old)
+        signal.setitimer(signal.ITIMER_VIRTUAL, 0)
+        signal.signal(signal.SIGVTALRM, old)
 
 
 def impl_run_inner(case):
@@ -350,7 +350,7 @@ def impl_run_inner(case):
                 obs.append((len(o), lay, flat))
             out.append(("step", raised, obs))
         except CaseTimeout:
-            out.append(("exc", f"timeout: step {st} did not finish within {CASE_TIMEOUT_S}s"[:200]))
+            out.append(("exc", f"timeout: step {st} did not finish within {CASE_TIMEOUT_S} CPU seconds"[:200]))
             break
         except Exception as e:  # noqa: BLE001
             out.append(("exc", f"{type(e).__name__}: {e}"[:200]))
